@@ -159,6 +159,16 @@ class CWorld:
                     dv.raw.close()
             except Exception:
                 pass
+            try:
+                if getattr(dv, "donor", None) is not None:
+                    dv.donor.close()
+            except Exception:
+                pass
+        try:
+            if hasattr(self, "donor_ref"):
+                self.donor_ref.close()
+        except Exception:
+            pass
         try:
             self.ref.close()
         except Exception:
@@ -1051,6 +1061,17 @@ class CWorld:
             if rb.hex() != hx:
                 raise Violation("C17", "packed-bytes", f"[{dv.kind}] node[()] of embedded file {p} differs from the source")
             self.probe("packed_bytes_verified")
+            # file metadata that travels with the node must keep describing these bytes
+            try:
+                fm = dv.mc[p].meta.get("core.file", (0, 1, 0))
+            except Exception as e:
+                raise Violation("C17", "file-metadata-raised", f"[{dv.kind}] reading core.file metadata of {p} raised {type(e).__name__}: {e}")
+            if fm is None and "core.file" in self.meta.get(p, {}):
+                raise Violation("C17", "file-metadata-lost", f"[{dv.kind}] embedded file {p} has lost its core.file metadata")
+            if fm is not None:
+                if fm.contentSize != len(rb) or not str(fm.sha256).endswith(hashlib.sha256(rb).hexdigest()):
+                    raise Violation("C17", "file-metadata-mismatch", f"[{dv.kind}] core.file metadata at {p} says size {fm.contentSize} / {fm.sha256}, the embedded bytes have size {len(rb)} / sha256 {hashlib.sha256(rb).hexdigest()[:16]}...")
+                self.probe("packed_metadata_verified")
 
     def finish(self):
         # reopen everything once more and compare fresh containers
@@ -1137,7 +1158,9 @@ class ContainerEngine:
         ms = MetaShadow()
         vgen = T.ValueGen(rng["values"], kinds=["i", "f", "s", "su", "y", "v", "a", "e", "ao"] + (["a", "a2", "a"] if prop == "C15" else []))
         dgen = T.DataGen(g, exotic=g.choice([0.0, 0.1, 0.3]), max_nodes=g.choice([6, 10, 15]), vgen=vgen, weights={"set_attr": 6, "del_attr": 2, "copy": 12, "move": 10, "del": 16})
-        w = {"data": 40, "meta_set": 22, "meta_del": 6, "meta_get": 4, "query": 5, "boundary": 7, "reopen": 3, "pack": 3, "reserved": 3, "actor": 0, "merge": 2}
+        w = {"data": 40, "meta_set": 22, "meta_del": 6, "meta_get": 4, "query": 5, "boundary": 7, "reopen": 3, "pack": 3, "reserved": 3, "actor": 0, "merge": 2, "xcont": 2}
+        if prop in ("C17", "C20", "C06"):
+            w.update(xcont=6)
         if prop == "C07":
             w.update(meta_get=12, query=14, meta_set=26)
         if prop == "C08":
@@ -1356,6 +1379,20 @@ class ContainerEngine:
                     cp = {"op": g.choice(["copy", "copy", "move"]), "base": "/", "src": echo, "dst": "/" + dgen.key() + f"_e{counter[0]}"}
                     sh.apply(cp)
                     ops.append(cp)
+            elif k == "xcont":
+                wh = g.randrange(len(DONOR_NODES))
+                dstp = node(0.0) if g.random() < 0.7 else "/" + DONOR_NODES[wh]  # sometimes the very path it has in the donor
+                if dstp in sh.nodes:
+                    continue
+                xo = {"op": "xcont_copy", "which": wh, "dst": dstp}
+                if sh.ensure_parents(dstp):
+                    sh.create(dstp, "g" if DONOR_NODES[wh] in ("dg", "dg/sub") else "d")
+                    if DONOR_NODES[wh] == "dg":
+                        for sub, kd in (("inner", "d"), ("plain", "d"), ("sub", "g")):
+                            sh.create(dstp + "/" + sub, kd)
+                    for q in ("", "/inner", "/sub"):
+                        ms.add(dstp + q, "x")
+                ops.append(xo)
             elif k == "reserved":
                 ops.append(gen_reserved(g, sh, ms))
             elif k == "actor":
@@ -2443,4 +2480,90 @@ def op_merge_check(w, op):
     return "ok"
 
 
+DONOR_NODES = ["df", "dg", "dg/inner", "dg/plain", "dg/sub"]
+
+
+def donor_of(w, dv):
+    """A second container on the same driver, with fixed content, that nodes are copied from."""
+    from metador_core.packer.utils import pack_file
+
+    if getattr(dv, "donor", None) is not None:
+        return dv.donor
+    fdir = os.path.join(w.scratch, "files")
+    os.makedirs(fdir, exist_ok=True)
+    blobs = {"df": b"donor-file-A\x00\x01", "dg/inner": b"donor inner bytes \xff\x00\x00"}
+    raw = w.h5py.File(os.path.join(dv.dir, "donor.h5"), "w") if dv.kind == "h5" else w.cls[dv.kind](os.path.join(dv.dir, "donor"), "w")
+    mc = w.MC(raw)
+    mc.create_group("dg")
+    mc.create_group("dg/sub")
+    mc["dg/plain"] = 3
+    for t, b in blobs.items():
+        fp = os.path.join(fdir, "donor_" + t.replace("/", "_") + ".bin")
+        with open(fp, "wb") as f:
+            f.write(b)
+        os.utime(fp, ns=(1_700_000_000_000_000_000, 1_700_000_000_000_000_000))
+        base, name = ("/" + t).rsplit("/", 1)
+        pack_file(mc[base or "/"], fp, target=name)
+    mc["dg"].meta["verif.other"] = VS.instance("verif.other", (0, 1, 0), 7)
+    mc["dg/sub"].meta["core.person"] = VS.instance("core.person", (0, 1, 0), 8)
+    dv.donor = mc
+    if not hasattr(w, "donor_model"):
+        # what the donor holds, in the model's terms (taken from the first donor built)
+        dm = {"packed": {"/" + t: b.hex() for t, b in blobs.items()}, "meta": {}}
+        for q, names in (("/df", ["core.file"]), ("/dg", ["verif.other"]), ("/dg/inner", ["core.file"]), ("/dg/sub", ["core.person"])):
+            for n in names:
+                o = mc[q].meta.get(n)
+                ref = o.Plugin.ref()
+                dm["meta"].setdefault(q, {})[n] = {"name": n, "version": list(ref.version), "json": canon_json(o.json())}
+        w.donor_model = dm
+        pr = w.h5py.File(os.path.join(w.scratch, "donor_ref.h5"), "w")
+        pr.create_group("dg")
+        pr.create_group("dg/sub")
+        pr["dg/plain"] = 3
+        import numpy as np
+
+        for t, b in blobs.items():
+            pr[t] = np.void(b)
+        w.donor_ref = pr
+    return dv.donor
+
+
+def op_xcont_copy(w, op):
+    """Copy a node *object* of another container (same driver) into this one. The copy is an
+    ordinary part of this container afterwards: its bytes, its metadata (and not metadata that
+    happens to sit at the same path here), TOC links, schema and package records."""
+    src = DONOR_NODES[op["which"] % len(DONOR_NODES)]
+    dst = w.norm(op["dst"])
+    for dv in w.drv:
+        donor_of(w, dv)
+    parent = T.Shadow.parent(dst)
+    okr = True
+    try:
+        w.ref.copy(w.donor_ref[src], dst)
+    except Exception:
+        okr = False
+
+    def fn(dv):
+        dv.mc.copy(dv.donor[src], dst)
+
+    res = w.all_apply(fn)
+    ok = w.same_outcome(res, f"xcont_copy {src} -> {dst}")
+    w.count("cross_container_copy")
+    if ok != okr:
+        # all drivers agree with each other but not with the plain tree: what the call left behind
+        # is judged by the oracles (user view, embedded bytes and their metadata, TOC)
+        w.probe("container_outcome_differs_from_plain:xcont_copy")
+    if okr:
+        pre = "/" + src
+        for q, hx in w.donor_model["packed"].items():
+            if q == pre or q.startswith(pre + "/"):
+                w.packed[dst + q[len(pre):]] = hx
+        for q, objs in w.donor_model["meta"].items():
+            if q == pre or q.startswith(pre + "/"):
+                w.meta.setdefault(dst + q[len(pre):], {}).update(json.loads(json.dumps(objs)))
+                w.meta_ops += 1
+    return "ok" if ok else "raise"
+
+
+EXTRA_OPS.update({"xcont_copy": op_xcont_copy})
 EXTRA_OPS.update({"ro_window": op_ro_window, "merge_check": op_merge_check, "pack": op_pack, "reserved": op_reserved, "grant": op_grant, "nav": op_nav, "attempt": op_attempt})
